@@ -12,30 +12,49 @@ import os
 import vlib
 
 PID = "C09"
-MODES = '{"WebRtc", "Srtp", "Rtp"}'
-LOCAL = '{"fresh", "changed", "unchanged"}'
-REMOTE = '{"fresh", "changed", "unchanged", "nofp", "badalg", "mid65535"}'
-NCALLS = 3 + (3 * 3 + 1) + (3 * 6 + 1)  # |Calls| for the class sets above
+ALL_MODES = ("WebRtc", "Srtp", "Rtp")
+LOCAL = ("fresh", "changed", "unchanged")
+REMOTE = ("fresh", "changed", "unchanged", "nofp", "badalg", "mid65535")
+NEGOTIATED = ("fresh", "offerer", "answerer")
 
+
+def S(xs):
+    return "{" + ", ".join('"%s"' % x for x in xs) + "}"
+
+
+def ncalls(local, remote):
+    return 3 + (3 * len(local) + 1) + (3 * len(remote) + 1)
+
+
+def scen(label, kind, maxlen, pres, modes=ALL_MODES, remote=REMOTE, sim=None):
+    return dict(label=label, kind=kind, maxlen=maxlen, pres=pres, modes=modes, local=LOCAL, remote=remote, sim=sim)
+
+
+# "connected": a really connected WebRtc pair (ICE + DTLS up); the class "otherfp" (well-formed description carrying
+# another certificate's fingerprint) is what can fail after the state check there.
+CONNECTED_REMOTE = ("fresh", "changed", "unchanged", "otherfp")
 TIERS = {
-    # label, kind, MaxLen, Pres, simulate
-    "quick": [("all-sequences/len3", "bounded", 3, '{"fresh", "offerer", "answerer"}', None)],
+    "quick": [
+        scen("all-sequences/len3", "bounded", 3, NEGOTIATED),
+        scen("connected/len2", "bounded", 2, ("connected",), modes=("WebRtc",), remote=CONNECTED_REMOTE),
+    ],
     "thorough": [
-        ("all-sequences/len3", "bounded", 3, '{"fresh", "offerer", "answerer"}', None),
-        ("all-sequences/len4/fresh", "bounded", 4, '{"fresh"}', None),
-        ("random/len6", "sim", 6, '{"fresh", "offerer", "answerer"}', 60000),
+        scen("all-sequences/len3", "bounded", 3, NEGOTIATED),
+        scen("connected/len3", "bounded", 3, ("connected",), modes=("WebRtc",), remote=CONNECTED_REMOTE),
+        scen("all-sequences/len4/fresh", "bounded", 4, ("fresh",)),
+        scen("random/len6", "sim", 6, NEGOTIATED, sim=60000),
     ],
 }
 
 
-def write_cfg(path, maxlen, pres, view, emit, inv="", deviations="{}"):
+def write_cfg(path, sc, maxlen, view, emit, inv="", deviations="{}"):
     with open(path, "w") as f:
         f.write(f"""SPECIFICATION Spec
 CONSTANTS
-  Pres = {pres}
-  Modes = {MODES}
-  LocalClasses = {LOCAL}
-  RemoteClasses = {REMOTE}
+  Pres = {S(sc['pres'])}
+  Modes = {S(sc['modes'])}
+  LocalClasses = {S(sc['local'])}
+  RemoteClasses = {S(sc['remote'])}
   MaxLen = {maxlen}
   Deviations = {deviations}
 VIEW {view}
@@ -51,35 +70,34 @@ def sig_of(d):
             "sig": d.get("sig"), "field": (d.get("field") or "").split(".")[0], "failure_site": d.get("failure_site")}
 
 
-def gen_table(ck, tag):
-    """The whole abstract graph: design check + oracle table."""
+def gen_table(ck, sc, tag):
+    """The whole abstract graph of the scenario's constants: design check + oracle table."""
     cfg = os.path.join(vlib.SPEC, f"MC_Jsep_table_{tag}.gen.cfg")
-    write_cfg(cfg, 8, '{"fresh", "offerer", "answerer"}', "view", "EmitEdge")
-    table = os.path.join(ck.dir, "table.ndjson")
+    write_cfg(cfg, sc, 8, "view", "EmitEdge")
+    table = os.path.join(ck.dir, f"table_{tag}.ndjson")
     res = vlib.tlc("MC_Jsep", os.path.basename(cfg), tags=("EDGE",), sinks={"EDGE": table}, timeout=300, workers=1,
                    tag=f"MC_Jsep_table_{tag}")
     os.remove(cfg)
-    vlib.tlc_ok(res, "table")
-    ck.add_tlc(res, "abstract graph (design check + oracle table)")
+    vlib.tlc_ok(res, "table " + sc["label"])
+    ck.add_tlc(res, f"{sc['label']}: abstract graph (design check + oracle table)")
     return table, res
 
 
-def gen_programs(ck, label, kind, maxlen, pres, sim, tag):
+def gen_programs(ck, sc, tag):
     cfg = os.path.join(vlib.SPEC, f"MC_Jsep_prog_{tag}.gen.cfg")
     out = os.path.join(ck.dir, f"programs_{tag}.ndjson")
-    if kind == "bounded":
-        write_cfg(cfg, maxlen, pres, "progView", "NoEmit", inv="EmitProgram")
+    if sc["kind"] == "bounded":
+        write_cfg(cfg, sc, sc["maxlen"], "progView", "NoEmit", inv="EmitProgram")
         res = vlib.tlc("MC_Jsep", os.path.basename(cfg), tags=("PROGRAM",), sinks={"PROGRAM": out}, timeout=3000,
                        workers=1, heap="8g", tag=f"MC_Jsep_prog_{tag}")
     else:
-        write_cfg(cfg, maxlen, pres, "progView", "NoEmit", inv="EmitSim")
+        write_cfg(cfg, sc, sc["maxlen"], "progView", "NoEmit", inv="EmitProgram")
         res = vlib.tlc("MC_Jsep", os.path.basename(cfg), tags=("PROGRAM",), sinks={"PROGRAM": out}, timeout=3000,
-                       workers=1, simulate=sim, depth=maxlen + 1, tag=f"MC_Jsep_prog_{tag}")
-        res["finished"] = True
+                       workers=1, simulate=sc["sim"], depth=sc["maxlen"] + 1, tag=f"MC_Jsep_prog_{tag}")
     os.remove(cfg)
-    vlib.tlc_ok(res, label)
-    ck.add_tlc(res, label)
-    if kind == "sim":  # random behaviours repeat: keep one copy of each program
+    vlib.tlc_ok(res, sc["label"])
+    ck.add_tlc(res, f"{sc['label']}: programs")
+    if sc["kind"] == "sim":  # random behaviours repeat: keep one copy of each program
         seen, rows = set(), []
         with open(out) as f:
             for line in f:
@@ -104,7 +122,7 @@ def replay_programs(ck, table, programs, label, jobs):
         if ty == "tool_error":
             raise vlib.ToolError(f"jsep harness: {json.dumps(r)[:600]}")
         if ty == "divergence":
-            r["case"] = {"mode": r["mode"], "pre": r["pre"], "calls": r["program"]}
+            r["case"] = {"mode": r["mode"], "pre": r["pre"], "calls": r["program"], "scenario": label}
             ck.divergence(sig_of(r), r)
         elif ty == "drift":
             ck.drift.append({k: r[k] for k in ("mode", "pre", "call", "t", "d", "sig", "field", "expected", "observed", "err")})
@@ -114,34 +132,33 @@ def replay_programs(ck, table, programs, label, jobs):
 def run(tier):
     ck = vlib.Check(PID, tier)
     vlib.build_harness(["jsep"])
-    table, tres = gen_table(ck, tier)
     jobs = min(16, vlib.NCPU) if tier == "thorough" else min(10, vlib.NCPU)
-    total_prog = total_calls = refused = hit = 0
-    exhaustive = tres["finished"]
-    for i, (label, kind, maxlen, pres, sim) in enumerate(TIERS[tier]):
-        programs, pres_ = gen_programs(ck, label, kind, maxlen, pres, sim, f"{tier}{i}")
+    total_prog = total_calls = refused = 0
+    exhaustive = True
+    for i, sc in enumerate(TIERS[tier]):
+        tag = f"{tier}{i}"
+        table, tres = gen_table(ck, sc, tag)
+        programs, pres_ = gen_programs(ck, sc, tag)
         nprog = pres_["counts"]["PROGRAM"]
-        if kind == "bounded":
-            expect = NCALLS ** maxlen * len(pres.split(","))
+        if sc["kind"] == "bounded":
+            expect = ncalls(sc["local"], sc["remote"]) ** sc["maxlen"] * len(sc["pres"])
             if nprog != expect:
-                raise vlib.ToolError(f"{label}: TLC printed {nprog} programs, expected {expect}")
-        summ = replay_programs(ck, table, programs, label, jobs)
-        if summ["programs"] != nprog * 3:
-            raise vlib.ToolError(f"{label}: {summ['programs']} program runs for {nprog} programs x 3 modes")
-        if kind == "bounded":
-            exhaustive = exhaustive and pres_["finished"]
+                raise vlib.ToolError(f"{sc['label']}: TLC printed {nprog} programs, expected {expect}")
+            exhaustive = exhaustive and pres_["finished"] and tres["finished"]
+        summ = replay_programs(ck, table, programs, sc["label"], jobs)
+        if summ["programs"] != nprog * len(sc["modes"]):
+            raise vlib.ToolError(f"{sc['label']}: {summ['programs']} program runs for {nprog} programs x {len(sc['modes'])} modes")
         total_prog += summ["programs"]
         total_calls += summ["calls"]
         refused += summ["programs_with_refused_call"]
-        hit = max(hit, summ["table_edges_hit_per_mode"])
-        ck.notes.append({"label": label, **{k: summ[k] for k in ("programs", "calls", "ok", "err", "panic",
-                                                              "programs_with_refused_call", "table_edges",
-                                                              "table_edges_hit_per_mode", "rows_suppressed")}})
+        ck.notes.append({"label": sc["label"], "pres": sc["pres"], "modes": sc["modes"], "remote_classes": sc["remote"],
+                         **{k: summ[k] for k in ("programs", "calls", "ok", "err", "panic", "programs_with_refused_call",
+                                                 "table_edges", "table_edges_hit_per_mode", "rows_suppressed")}})
         with open(programs) as f:
             for j, line in enumerate(f):
-                if j in (0, 1000, 50000) and len(ck.cov["samples"]) < 6:
+                if j in (0, 500, 50000) and len(ck.cov["samples"]) < 8:
                     ck.cov["samples"].append(json.loads(line))
-        if os.path.getsize(programs) > 200_000_000:
+        if os.path.getsize(programs) > 100_000_000:
             os.remove(programs)
     ck.cov["traces_validated_against_impl"] = total_prog
     ck.cov["evaluations"] = total_calls
@@ -150,22 +167,34 @@ def run(tier):
     ck.cov["rule"] = ("every call sequence of the listed length over {create_offer, create_answer, close, "
                       "set_local(offer|answer|pranswer x fresh|changed|unchanged, rollback), set_remote(offer|answer|"
                       "pranswer x fresh|changed|unchanged|no-fingerprint|bad-algorithm|mid-65535, rollback)} from a "
-                      "fresh, a negotiated-as-offerer and a negotiated-as-answerer connection, in WebRtc, Srtp and Rtp "
-                      "mode, is executed on a real PeerConnection; after every call: outcome and signaling state "
-                      "against the TLC table (TableConformance), description slots, and the complete projection "
+                      "fresh, a negotiated-as-offerer and a negotiated-as-answerer connection in WebRtc, Srtp and Rtp "
+                      "mode, and (with the class other-certificate-fingerprint) from a really connected WebRtc pair, is "
+                      "executed on a real PeerConnection; after every call: outcome and signaling state against the TLC "
+                      "table (TableConformance; a panic is rule Returns), description slots, and the complete projection "
                       "(state, both descriptions, mid/direction/payload map/extmap of every transceiver) against the "
                       "pre-call projection when the call did not succeed (FailureAtomic). non-trivial = program runs "
                       "containing at least one refused call (the atomicity rule's antecedent)")
     ck.assumptions += [
-        "bounded: program length and initial conditions as listed in tlc_runs; 32-call alphabet; audio+video transceivers",
-        "descriptions are produced by real peer objects of the same transport mode (template pairs) and mutated for the "
-        "changed/malformed classes; ICE candidates are stripped so that no transport connects in the background",
+        "bounded: program length, initial conditions, modes and description classes as listed in notes/tlc_runs; "
+        "connections have one audio and one video transceiver",
+        "descriptions are produced by real peer objects of the same transport mode (template pairs; the live peer in the "
+        "connected scenario) and mutated for the changed/malformed classes; except in the connected scenario ICE "
+        "candidates are stripped so that no transport connects in the background",
         "projection through the public API only: signaling_state, local/remote_description (local compared modulo the "
         "candidate/port/connection lines the gathering task rewrites), get_transceivers -> mid, direction, payload map, extmap",
+        "a program stops at its first divergence (model and implementation no longer agree on the state)",
         "what close() does to the stored descriptions and whether an allowed call with a stack-produced description "
         "succeeds are outside the statement (EXT, reported as DRIFT)",
     ]
     ck.finish()
+
+
+def _scenario_of(case):
+    for tier in ("quick", "thorough"):
+        for sc in TIERS[tier]:
+            if sc["label"] == case.get("scenario"):
+                return sc
+    return TIERS["quick"][1] if case["pre"] == "connected" else TIERS["quick"][0]
 
 
 def replay(path):
@@ -174,52 +203,53 @@ def replay(path):
     with open(path) as f:
         rec = json.load(f)
     case = rec["record"]["case"]
-    table, _ = gen_table(ck, "replay")
+    table, _ = gen_table(ck, _scenario_of(case), "replay")
     pp = os.path.join(ck.dir, "replay_one_program.ndjson")
     vlib.write_ndjson(pp, [{"pre": case["pre"], "modes": [case["mode"]], "calls": case["calls"]}])
-    out = os.path.join(ck.dir, "replay_one.ndjson")
-    p = vlib.run_bin("jsep", [table, pp, out, "2"], timeout=300)
-    if p.returncode != 0:
-        raise vlib.ToolError(p.stderr[-2000:])
-    for r in vlib.read_ndjson(out):
-        if r.get("type") == "divergence":
-            r["case"] = case
-            ck.divergence(sig_of(r), r)
-    ck.cov.update(traces_validated_against_impl=1, samples=[case])
+    summ = replay_programs(ck, table, pp, "replay_one", 2)
+    ck.cov.update(traces_validated_against_impl=summ["programs"], evaluations=summ["calls"], samples=[case])
     ck.finish()
 
 
 def selftest():
     """Negative controls on the machinery itself:
     (i) each named deviation of the pinned code, switched on, violates the property it is about in TLC;
-    (ii) a corrupted oracle table (one transition redirected / one forbidden call allowed) makes the replayer diverge."""
+    (ii) a corrupted oracle table (one transition redirected / slot update dropped) makes the replayer diverge."""
     ck = vlib.Check(PID + "-selftest", "quick")
     ok = True
-    for dev, prop in (("MutateBeforeCheck", "FailureAtomic"), ("CommitBeforeFail", "FailureAtomic"),
-                      ("PanicOnMid65535", "TableConformance")):
+    sc = TIERS["quick"][0]
+    for dev, prop in (("MutateBeforeCheck", ("FailureAtomic",)), ("CommitBeforeFail", ("FailureAtomic", "SlotsConsistent")),
+                      ("PanicOnMid65535", ("TableConformance",))):
         cfg = os.path.join(vlib.SPEC, "MC_Jsep_selftest.gen.cfg")
-        write_cfg(cfg, 8, '{"fresh", "offerer", "answerer"}', "view", "NoEmit", deviations='{"%s"}' % dev)
+        write_cfg(cfg, sc, 8, "view", "NoEmit", deviations='{"%s"}' % dev)
         res = vlib.tlc("MC_Jsep", os.path.basename(cfg), timeout=300, workers=2, tag="MC_Jsep_selftest")
         os.remove(cfg)
-        hit = any(prop in e for e in res["errors"]) or any(prop in l for l in res["raw_tail"])
-        print(f"selftest: Deviations={{{dev}}} violates {prop}: {hit}")
+        hit = any(p in l for p in prop for l in res["errors"] + res["raw_tail"] if "violated" in l)
+        print(f"selftest: Deviations={{{dev}}} violates {'/'.join(prop)}: {hit}")
         ok = ok and hit
     vlib.build_harness(["jsep"])
-    table, _ = gen_table(ck, "selftest")
-    progs, _ = gen_programs(ck, "len2", "bounded", 2, '{"fresh"}', None, "selftest")
+    small = scen("selftest/len2", "bounded", 2, ("fresh",))
+    table, _ = gen_table(ck, small, "selftest")
+    progs, _ = gen_programs(ck, small, "selftest")
     rows = vlib.read_ndjson(table)
-    for name, fn in (("redirect", lambda e: e["to"].__setitem__("sig", "Stable")
-                      if (e["call"]["op"], e["call"]["t"], e["res"], e["from"]["sig"]) == ("set_local", "offer", "Ok", "Stable") else None),
-                     ("slot", lambda e: e["to"].__setitem__("remote", "same")
-                      if (e["call"]["op"], e["res"]) == ("set_remote", "Ok") else None)):
+
+    def redirect(e):
+        if (e["call"]["op"], e["call"]["t"], e["res"], e["from"]["sig"]) == ("set_local", "offer", "Ok", "Stable"):
+            e["to"]["sig"] = "Stable"
+
+    def slot(e):
+        if (e["call"]["op"], e["res"]) == ("set_remote", "Ok"):
+            e["to"]["remote"] = "same"
+
+    for name, fn in (("redirect", redirect), ("slot", slot)):
         bad = json.loads(json.dumps(rows))
         for e in bad:
             fn(e)
         bp = os.path.join(ck.dir, f"table_{name}.ndjson")
         vlib.write_ndjson(bp, bad)
         out = os.path.join(ck.dir, f"selftest_{name}.ndjson")
-        p = vlib.run_bin("jsep", [bp, progs, out, "4"], timeout=600)
+        vlib.run_bin("jsep", [bp, progs, out, "4"], timeout=600)
         n = sum(1 for r in vlib.read_ndjson(out) if r.get("type") == "divergence" and r.get("rule") == "TableConformance")
-        print(f"selftest: corrupted table ({name}) -> {n} TableConformance divergences")
+        print(f"selftest: corrupted table ({name}) -> {n} TableConformance divergence rows")
         ok = ok and n > 0
     raise SystemExit(0 if ok else 2)
